@@ -321,6 +321,7 @@ def run(chk, ctx):
     from . import round5
     round5.dropped_message_is_forgotten(chk, ctx)
     round5.orphan_timer_acks_retained(chk, ctx)
+    round5.retry_arm_publishes_before_teardown(chk, ctx)
     c08.r4(chk, ctx)                         # 'no timer left behind': every completion path disarms the request's timer
     round3.timer_cleared_only_on_completion(chk, ctx)
     chk.assume("the broker redelivers unacknowledged messages (trusted)")
